@@ -1,3 +1,6 @@
+mod dump;
+mod manifest;
+mod mkcont;
 mod util;
 mod views;
 
@@ -24,6 +27,7 @@ fn main() {
         let id = c.id.clone();
         let r = std::panic::catch_unwind(std::panic::AssertUnwindSafe(|| match c.family.as_str() {
             "views" => views::run(c, &tmp),
+            "manifest" => manifest::run(c, &tmp),
             f => panic!("unknown family {f}"),
         }));
         match r {
